@@ -141,6 +141,22 @@ def chk_rejections(hrp, ver, plen, salt, case_blocks=False):
     for pos in (len(hrp) + 1, len(good) - 1, len(good) // 2):
         for ch in "bio1 B!é\x7f":
             must_refuse(good[:pos] + ch + good[pos + 1:], "foreign-character")
+    # characters OUTSIDE ASCII that case-mapping or compatibility normalisation turns into an ASCII letter or digit (KELVIN SIGN
+    # lower-cases to k, LONG S folds to s, full-width forms, mathematical alphanumerics): each is a one-character substitution
+    for form in (good, good.upper()):
+        for pos, c in enumerate(form):
+            alts = [chr(0xFF00 + ord(c) - 0x20)] if 0x21 <= ord(c) <= 0x7E else []
+            if c in "kK":
+                alts.append("\u212a")
+            if c in "sS":
+                alts.append("\u017f")
+            if c.isalpha() and c.islower():
+                alts.append(chr(0x1D41A + ord(c) - ord("a")))       # MATHEMATICAL BOLD SMALL
+            if c.isdigit():
+                alts.append(chr(0x0660 + int(c)))                   # ARABIC-INDIC DIGIT
+            if pos in (0, len(hrp) + 1, len(form) // 2, len(form) - 1) or c in "kKsS":
+                for a_ in alts:
+                    must_refuse(form[:pos] + a_ + form[pos + 1:], "foreign-character")
     must_refuse(good.replace("1", "", 1) if good.count("1") == 1 else good[:len(hrp)] + good[len(hrp) + 1:], "separator-missing")
     must_refuse("1" + good[len(hrp) + 1:], "empty-prefix", "")
     must_refuse(good[:-1], "truncated")
